@@ -17,7 +17,7 @@
 From Coq Require Import ZArith List Bool.
 From PTK Require Import Lib.Sx Model.C04_KeyProc Model.C04_Filters Model.C04_Registry Model.C04_Run
                         Proofs.C04_KeyProcFacts Proofs.C04_RuleFacts Proofs.C04_FilterFacts
-                        Proofs.C04_RegistryFacts.
+                        Proofs.C04_RegistryFacts Proofs.C04_ComposeFacts.
 Import ListNotations.
 Open Scope Z_scope.
 
@@ -37,52 +37,78 @@ Print Assumptions C04_no_match_iff.
    is what the documented rule prescribes: wait while a longer active binding
    is possible (unless timeout or eager); otherwise fire the best exact match
    (eager ones first); with no match, the longest dispatchable prefix fires and
-   the rest is re-examined, else exactly one key is dropped. *)
-Theorem C04_rule : forall l b e q it,
-  pass_spec l (push b it) (is_flush it) e q (send (index_from 0 l) b e q it).
+   the rest is re-examined, else exactly one key is dropped; once a handler
+   has finished the application (d = app.is_done) the rest is not re-examined
+   but handed back to the front of the input queue, in order. *)
+Theorem C04_rule : forall l b e q d it,
+  pass_spec l (push b it) (is_flush it) e q d (send (index_from 0 l) b e q d it).
 Proof. exact send_refines_rule. Qed.
 Print Assumptions C04_rule.
 
 (* ... and the rule leaves no choice: it determines events, buffer, conditions and queue *)
-Theorem C04_rule_deterministic : forall l b flush e q r1,
-  pass_spec l b flush e q r1 -> forall r2, pass_spec l b flush e q r2 -> r1 = r2.
+Theorem C04_rule_deterministic : forall l b flush e q d r1,
+  pass_spec l b flush e q d r1 -> forall r2, pass_spec l b flush e q d r2 -> r1 = r2.
 Proof. exact pass_spec_deterministic. Qed.
 Print Assumptions C04_rule_deterministic.
 
 (* the generator's retry loop always comes back to `yield` (or raises) *)
-Theorem C04_send_terminates : forall bs b e q it, send bs b e q it <> LFuel.
+Theorem C04_send_terminates : forall bs b e q d it, send bs b e q d it <> LFuel.
 Proof. exact send_fuel. Qed.
 Print Assumptions C04_send_terminates.
 
 (* ---- conservation: over a whole process_keys() run (any bindings, any queue,
    handlers that feed keys included), the keys pending before plus the keys
    popped from the queue are, in order, exactly the keys delivered to handler
-   invocations, dropped, discarded by the reset after an exception, followed by
-   the keys still pending. *)
+   invocations, dropped, discarded by the reset after an exception, handed back
+   to the input queue (application finished), followed by the keys still pending. *)
 Theorem C04_conservation : forall fuel bs s,
   let '(s', evs, pop, stt) := process_keys fuel bs s in
   buf s ++ items_keys pop = evs_keys evs ++ buf s'.
 Proof. exact process_keys_conserved. Qed.
 Print Assumptions C04_conservation.
 
-(* when no handler feeds keys the queue is consumed front to back: what was
-   queued = what was popped ++ what is still queued (or was discarded by the reset) *)
-Theorem C04_queue_order_nofeed : forall fuel bs, no_feed bs -> forall s,
+(* ---- the input queue, handlers that feed keys (first=True or False) included:
+   over the whole trace the queue only changes by a pop of its front item, a
+   handler's feed_multiple (items in front or at the back, in order), the
+   hand-back of the pending keys (in front, in order) when the application is
+   finished, and the reset after an exception; and the popped items are the
+   pops of the trace *)
+Theorem C04_queue_replay : forall fuel bs s,
+  let '(s', evs, pop, stt) := process_keys fuel bs s in replays (queue s) evs (queue s').
+Proof. exact process_keys_replays. Qed.
+Print Assumptions C04_queue_replay.
+
+Theorem C04_popped_are_the_pops : forall fuel bs s,
+  let '(s', evs, pop, stt) := process_keys fuel bs s in pops evs = pop.
+Proof. exact process_keys_pops. Qed.
+Print Assumptions C04_popped_are_the_pops.
+
+(* ---- keys that were not delivered stay in input order: when no handler feeds
+   keys and none raises, pending keys ++ queued keys before the run = keys
+   delivered or dropped ++ pending keys ++ queued keys after it - also when a
+   handler finished the application in the middle (the looked-ahead keys return
+   to the queue in the order they were typed) *)
+Theorem C04_undelivered_in_order : forall fuel bs, no_feed bs -> forall s,
   let '(s', evs, pop, stt) := process_keys fuel bs s in
   match stt with
-  | SRaised => exists evs0 lb lq, evs = evs0 ++ [ERaised lb lq] /\ queue s = pop ++ lq
-  | _ => queue s = pop ++ queue s'
+  | SRaised => True
+  | _ => buf s ++ items_keys (queue s) = evs_gone evs ++ buf s' ++ items_keys (queue s')
   end.
-Proof. exact process_keys_queue. Qed.
-Print Assumptions C04_queue_order_nofeed.
+Proof. exact process_keys_in_order. Qed.
+Print Assumptions C04_undelivered_in_order.
+
+(* once the application is finished nothing is popped any more *)
+Theorem C04_done_stops : forall fuel bs s, sdone s = true -> process_keys fuel bs s = (s, [], [], SDone).
+Proof. exact process_keys_done. Qed.
+Print Assumptions C04_done_stops.
 
 (* ---- a handler that raises leaves the processor reset (empty key_buffer and
    input_queue: the state of a fresh processor with the same conditions), and
    the exception is the last thing that happened *)
 Theorem C04_exception_resets : forall fuel bs s s' evs pop,
   process_keys fuel bs s = (s', evs, pop, SRaised) ->
-  s' = mkst [] [] (cenv s') /\
-  exists evs0 i ks lb lq, evs = evs0 ++ [EInvoke i ks; ERaised lb lq].
+  s' = mkst [] [] (cenv s') (sdone s') /\
+  exists evs0 lb lq, evs = evs0 ++ [ERaised lb lq] /\ exists i ks, In (EInvoke i ks) evs0.
 Proof. exact process_keys_raised. Qed.
 Print Assumptions C04_exception_resets.
 
@@ -176,6 +202,47 @@ Theorem C04_same_version_same_bindings : forall s0 s, older s0 s -> wfs s ->
 Proof. exact same_version_same_bindings. Qed.
 Print Assumptions C04_same_version_same_bindings.
 
+(* ---- the layers composed: bindings whose filter and eager are filter OBJECTS
+   (heap ids of the memoised algebra, caches included).  [reify h i] is the
+   expression object i denotes ([C04_object_value]).  After any further history
+   of memoised & | ~ constructions the processor sees literally the same
+   binding list, every send follows the rule, and active/eager are the objects'
+   current values, unchanged by the history. *)
+Theorem C04_object_value : forall h e i, feval e (reify h i) = value h e i.
+Proof. exact reify_value. Qed.
+Print Assumptions C04_object_value.
+
+Theorem C04_dispatch_over_filter_objects : forall h obs ops b e q d it,
+  wf h -> (forall ob, In ob obs -> (ofilter ob < len h)%nat /\ (oeager ob < len h)%nat) ->
+  let h' := fold_left fstep' ops h in
+  let l := map (reify_b h') obs in
+  l = map (reify_b h) obs /\
+  pass_spec l (push b it) (is_flush it) e q d (send (index_from 0 l) b e q d it) /\
+  forall ob, In ob obs ->
+    feval e (bfilter (reify_b h' ob)) = value h' e (ofilter ob) /\
+    feval e (beager (reify_b h' ob)) = value h' e (oeager ob) /\
+    value h' e (ofilter ob) = value h e (ofilter ob) /\
+    value h' e (oeager ob) = value h e (oeager ob).
+Proof. exact objects_dispatch. Qed.
+Print Assumptions C04_dispatch_over_filter_objects.
+
+(* the registry model writes ConditionalKeyBindings' filter as [FAnd f (bfilter b)] and
+   add()'s eager for a Binding object as [FOr ..]: the objects the real operators
+   build (whatever their caches return) denote exactly these *)
+Theorem C04_conditional_filter_object : forall h cf bf e,
+  wf h -> (cf < len h)%nat -> (bf < len h)%nat ->
+  let '(h', r) := mk_and h cf bf in
+  feval e (reify h' r) = feval e (FAnd (reify h cf) (reify h bf)) /\ wf h'.
+Proof. exact cond_filter_object. Qed.
+Print Assumptions C04_conditional_filter_object.
+
+Theorem C04_eager_filter_object : forall h f g e,
+  wf h -> (f < len h)%nat -> (g < len h)%nat ->
+  let '(h', r) := mk_or h f g in
+  feval e (reify h' r) = feval e (FOr (reify h f) (reify h g)) /\ wf h'.
+Proof. exact or_filter_object. Qed.
+Print Assumptions C04_eager_filter_object.
+
 (* observation (DESIGN F12), not demanded by the property: KeyBindings.remove
    deletes from the list it iterates over and so skips the element after each
    removed one *)
@@ -187,7 +254,7 @@ Print Assumptions C04_remove_skips_observed.
    the timeout fires binding #0 *)
 Example C04_rule_example :
   let l := [mkbinding [1] FAlways FNever false 0 [] true 0; mkbinding [1; 2] FAlways FNever false 1 [] true 0] in
-  send (index_from 0 l) [] [] [] (IKey 1) = LDone [1] [] [] [] /\
-  send (index_from 0 l) [1] [] [] IFlush = LDone [] [] [] [EInvoke 0 [1]].
+  send (index_from 0 l) [] [] [] false (IKey 1) = LDone [1] [] [] false [] /\
+  send (index_from 0 l) [1] [] [] false IFlush = LDone [] [] [] false [EInvoke 0 [1]].
 Proof. split; reflexivity. Qed.
 Print Assumptions C04_rule_example.
